@@ -97,7 +97,8 @@ Sweep ==
        THEN Reject("sweep: the update order is not a permutation of all states")
      ELSE IF T.kind = "SAVI" /\ Len(Ev.permref) > 0 /\ Ev.perm # Ev.permref
        THEN Reject("sweep: update order not reproducible from random_seed")
-     ELSE IF T.kind = "SAVI" /\ T.shuffle /\ M.ns >= 7 /\ Len(lastp) = 2 /\ lastp[1] = Ev.perm /\ lastp[2] = Ev.perm
+     \* (not in runs resumed from a checkpoint by a new instance: the key is not checkpointed, the chain restarts)
+     ELSE IF T.kind = "SAVI" /\ T.shuffle /\ ~T.reloads /\ M.ns >= 7 /\ Len(lastp) = 2 /\ lastp[1] = Ev.perm /\ lastp[2] = Ev.perm
        THEN Reject("sweep: the same permutation in three consecutive sweeps (not drawn afresh for each sweep)")
      ELSE IF ~SweepValuesOK(Ev.v)
        THEN Reject(CASE T.kind = "SAVI" -> "sweep: values are not the block Gauss-Seidel backup in the documented order"
